@@ -530,6 +530,7 @@ void emit_runs(const blob_t& blob, bool bytelevel, int64_t alterations, vt::Rng&
     put_alterations(blob, "Swaps", swaps, swap_collides);
     // the version fields of configurable objects altered to a newer version: the object cannot be read
     std::vector<int64_t> newer;
+    std::vector<int64_t> newer_same;
     for (const auto offset : blob.versions)
     {
         int32_t version[3] = {0, 0, 0};
@@ -547,12 +548,14 @@ void emit_runs(const blob_t& blob, bool bytelevel, int64_t alterations, vt::Rng&
             }
             auto bytes = blob.bytes;
             std::memcpy(bytes.data() + offset, altered.data(), sizeof(version));
-            newer.push_back(read_back(blob, bytes, full).outcome);
+            const auto run = read_back(blob, bytes, full);
+            newer.push_back(run.outcome);
+            newer_same.push_back(run.same ? 1 : 0);
         }
     }
     if (!newer.empty())
     {
-        vt::put(vt::J("VersionFlips").s("kind", blob.kind).a("outcomes", newer));
+        vt::put(vt::J("VersionFlips").s("kind", blob.kind).a("outcomes", newer).a("same", newer_same));
     }
     // low-bit alterations of tensor headers: detection is not promised, only survival
     int64_t nheader = 0;
